@@ -129,15 +129,29 @@ class Writer:
         self.lines: list[str] = []
         self.fp: dict = {}
         self.rec: dict = {}
+        self.filled: set = set()
         self.pin: dict = {}
         pf = os.environ.get("VERIF_PIN_FILE")
         if pf and os.path.exists(pf):
             self.pin = json.loads(Path(pf).read_text()).get("soft", {})
 
-    def _q(self, name, v):
+    def _q(self, name, v, kind="raw"):
         key = f"{getattr(self, 'open_ns', None) or '_'}.{name}"
-        self.rec[key] = v
-        return self.pin.get(key, v)
+        self.rec[key] = [kind, v]
+        return self.pin[key][1] if key in self.pin else v
+
+    def _fill_missing(self, ns):
+        """pinned run: a section that failed before it emitted its body-derived values still gets them (pinned)"""
+        for key, (kind, val) in sorted(self.pin.items()):
+            if key.startswith(ns + ".") and key not in self.rec:
+                name = key[len(ns) + 1:]
+                if kind == "raw":
+                    self.raw(val)
+                elif kind == "bytes":
+                    self.bytes(name, bytes.fromhex(val))
+                else:
+                    getattr(self, kind)(name, val)
+                self.filled.add(ns)
 
     def ns(self, name):
         self.close_open()            # sections are sequential: a section that failed half-way must not swallow the next ones
@@ -145,48 +159,50 @@ class Writer:
         self.open_ns = name
 
     def end(self, name):
+        self._fill_missing(name)
         self.lines.append(f"end {name}")
         self.open_ns = None
 
     def close_open(self):
         if getattr(self, "open_ns", None):
+            self._fill_missing(self.open_ns)
             self.lines.append(f"end {self.open_ns}")
             self.open_ns = None
 
     def nat(self, name, v, key=None):
-        v = self._q(name, int(v))
+        v = self._q(name, int(v), "nat")
         self.lines.append(f"def {name} : Nat := {int(v)}")
         self.fp[key or name] = int(v)
 
     def int(self, name, v, key=None):
-        v = self._q(name, int(v))
+        v = self._q(name, int(v), "int")
         self.lines.append(f"def {name} : Int := {int(v)}")
         self.fp[key or name] = int(v)
 
     def bytes(self, name, v: bytes, key=None):
-        v = bytes.fromhex(self._q(name, v.hex()))
+        v = bytes.fromhex(self._q(name, v.hex(), "bytes"))
         self.lines.append(f"def {name} : List UInt8 := {lean_bytes(v)}")
         self.fp[key or name] = v.hex()
 
     def natlist(self, name, vs, key=None):
-        vs = self._q(name, [int(v) for v in vs])
+        vs = self._q(name, [int(v) for v in vs], "natlist")
         self.lines.append(f"def {name} : List Nat := [{', '.join(str(int(v)) for v in vs)}]")
         self.fp[key or name] = [int(v) for v in vs]
 
     def strlist(self, name, vs, key=None):
-        vs = self._q(name, list(vs))
+        vs = self._q(name, list(vs), "strlist")
         self.lines.append(f"def {name} : List String := [{', '.join(lean_str(v) for v in vs)}]")
         self.fp[key or name] = list(vs)
 
     def string(self, name, v, key=None):
-        v = self._q(name, v)
+        v = self._q(name, v, "string")
         self.lines.append(f"def {name} : String := {lean_str(v)}")
         self.fp[key or name] = v
 
     def raw(self, line):
         m = re.match(r"\s*(?:@\[[^\]]*\]\s*)?def\s+(\S+)", line)
         if m:
-            line = self._q(m.group(1), line)
+            line = self._q(m.group(1), line, "raw")
         self.lines.append(line)
 
     def struct(self, prefix, st, fields):
@@ -1061,7 +1077,7 @@ def main() -> int:
         tmp = OUT.with_suffix(".lean.tmp%d" % os.getpid())
         tmp.write_text(text)
         os.replace(tmp, OUT)
-    print(json.dumps({"changed": changed, "problems": problems,
+    print(json.dumps({"changed": changed, "problems": problems, "filled_ns": sorted(w.filled),
                       "sha256": hashlib.sha256(text.encode()).hexdigest(),
                       "n_values": len(w.fp)}))
     (HERE.parent / "lean" / "Hv" / "Extracted.fingerprint.json").write_text(json.dumps(w.fp, indent=0, sort_keys=True, default=str))
